@@ -261,6 +261,7 @@ def run(chk: Check):
                          {"case": {"dims": dims, "b": b, "passes": passes, "existing": existing, "script": script},
                           "impl": impl + f" warned {int(warned)}", "model": ans})
     object_life(chk, rng)
+    huge_space(chk, rng)
     for (dims, new, ex), ans in zip(find_cases, answers[len(cases):]):
         PRES.update(presentation(dims, len(new), 0, ex))
         got = BaseSampler.find_and_get_duplicates(present(new, dims, "batch"), present(ex, dims, "hist"))
@@ -325,6 +326,59 @@ def object_life(chk: Check, rng):
     for (rq, impl, warned, case), ans in zip(pending, lean_run([p[0] for p in pending]) if pending else []):
         if impl != ans.split(" | runs ")[0] or warned != ans.endswith("warned 1"):
             chk.disagree("BaseSampler.sample != BlackIt.Dedup.sample (one object, growing history, state round trips)", {**case, "impl": impl + f" warned {int(warned)}", "model": ans})
+
+
+def huge_space(chk: Check, rng):
+    """a real SearchSpace with more grid points than 64-bit counters can number (five parameters of 65536 values), every point exactly on the grid; the new
+    points are near-copies of history points: equal in all coordinates but one (each coordinate in turn) - these are NOT repeats - next to true repeats"""
+    from black_it.search_space import SearchSpace
+
+    dims = 5
+    sp = SearchSpace([[0.0] * dims, [65535.0] * dims], [1.0] * dims, False)
+    pending = []
+    for it in range(40 if chk.tier == "quick" else 600):
+        b = rng.randint(1, 3); passes = rng.randint(1, 3)
+        hist = [[rng.randrange(65536) for _ in range(dims)] for _ in range(rng.randint(2, 6))]
+        script = []
+        for k in range(passes + 1):
+            rows = []
+            for _ in range(b):
+                base = list(rng.choice(hist))
+                kind = rng.choice(["near", "near", "repeat", "fresh"])
+                if kind == "near":
+                    j = (it + len(rows) + k) % dims
+                    base[j] = (base[j] + rng.choice([1, 255, 256, 4096, 32768, 65535])) % 65536
+                    if base in hist:
+                        base[j] = (base[j] + 1) % 65536
+                elif kind == "fresh":
+                    base = [rng.randrange(65536) for _ in range(dims)]
+                rows.append(base)
+            script.append(rows)
+        case = {"case": {"dims": dims, "b": b, "passes": passes, "existing": hist, "script": script, "search_space": "5 x [0, 65535] step 1"}}
+        smp = make_sampler(script, b, passes)
+        PRES.update({"scale": 1.0, "layout": "C"})
+        try:
+            ex = np.array(hist, dtype=float)
+            buf = io.StringIO()
+            with contextlib.redirect_stdout(buf):
+                out = smp.sample(sp, ex, np.zeros(len(ex)))
+            out_l = labels(out)
+        except Exception as e:  # noqa: BLE001
+            chk.fail(f"sample() on a very large search space raised {type(e).__name__}: {str(e)[:100]}", case)
+            continue
+        if out_l is None:
+            chk.fail("sample() on a very large search space returned values that are neither first draws nor redraws", case)
+            continue
+        smp.snapshots = [labels(x) for x in smp.snapshots]
+        rec = type("Rec", (), {"requests": list(smp.requests), "snapshots": list(smp.snapshots)})()
+        warned = "Warning" in buf.getvalue()
+        chk.case(["huge", it, b, passes, hist, script], len(rec.requests) > 1, {"batch_size": b, "passes": passes, "returned": out_l.tolist()}); chk.count("huge_real_search_space")
+        for e in oracle(b, passes, hist, script, out_l, rec, warned):
+            chk.fail("sample() on a search space of 65536^5 points: " + e, case)
+        pending.append((req(passes, b, dims, hist, script), f"samples {rows_s(out_l.tolist())} | requests {','.join(str(r) for r in rec.requests)}", warned, case))
+    for (rq, impl, warned, case), ans in zip(pending, lean_run([p[0] for p in pending]) if pending else []):
+        if impl != ans.split(" | runs ")[0] or warned != ans.endswith("warned 1"):
+            chk.disagree("BaseSampler.sample != BlackIt.Dedup.sample (real search space of 65536^5 points)", {**case, "impl": impl + f" warned {int(warned)}", "model": ans})
 
 
 def replay(path: Path) -> int:
